@@ -111,7 +111,9 @@ pub fn ctag_name(t: u8) -> &'static str {
 
 #[derive(Component, Serialize, Deserialize, Clone, PartialEq, Debug)]
 pub struct A(pub Val);
+/// (sparse-set storage: every cell with `B` mixes the two storage kinds)
 #[derive(Component, Serialize, Deserialize, Clone, PartialEq, Debug)]
+#[component(storage = "SparseSet")]
 pub struct B(pub Val);
 /// Replicated with `SendRate::Periodic(2)`.
 #[derive(Component, Serialize, Deserialize, Clone, PartialEq, Debug)]
